@@ -731,7 +731,7 @@ fn e2e_cases(o: &mut Outcome, rng: &mut Rng, thorough: bool, fixtures: &[corpus:
     let toggles: &[(bool, bool)] = &[(true, true), (true, false), (false, true), (false, false)];
     let mk = |w: usize, m: bool, b: bool| vec![kv("max_width", w), kv("format_macro_matchers", m), kv("format_macro_bodies", b)];
     // (1) definitions: the exhaustive matcher texts, 20 definitions to a file
-    let ex = exhaustive_matchers(false);
+    let ex = exhaustive_matchers(thorough);
     let ex: Vec<String> = ex.into_iter().filter(|m| !known_dirty_matcher(m)).collect();
     for (k, (src, _)) in defs_sources(&ex, 20).into_iter().enumerate() {
         let ws: Vec<usize> = if thorough { vec![20, 28, 40, 61, 100] } else { vec![*rng.pick(&widths_all), 100] };
@@ -788,7 +788,7 @@ fn e2e_cases(o: &mut Outcome, rng: &mut Rng, thorough: bool, fixtures: &[corpus:
             for trail in ["", ",", ";"] {
                 for args in ["", "a", "a, b", "alpha_beta_gamma, delta_epsilon_zeta, eta_theta_iota, kappa_lambda_mu", "a; 3", "fn f() {}", "a => b", "x: u8, y", "self", "1, \"s\", 'c'"] {
                     let call = format!("{}!{}{}{}{}", name, l, args, if args.is_empty() { "" } else { trail }, r);
-                    let src = format!("{call};\nfn main() {{\n    {call};\n    let x = {call};\n    outer!({call});\n    outer![{call}, {call},];\n    match x {{ {call} => 1, _ => 2 }}\n}}\n", call = call);
+                    let src = format!("{call};\nfn main() {{\n    {call};\n    let x = {call};\n    outer!({call});\n    outer![{call}, {call},];\n    match x {{ {call} => 1, _ => 2 }}\n    let y: {call} = f({call}, {call})?;\n}}\nimpl X {{\n    {call};\n}}\ntrait Y {{\n    {call};\n}}\nextern \"C\" {{\n    {call};\n}}\ntype T = {call};\n", call = call);
                     let ws: Vec<usize> = if thorough { vec![20, 33, 47, 60, 80, 100] } else { vec![*rng.pick(&[20usize, 40, 60, 100])] };
                     for w in ws {
                         cases.push(E2e { id: format!("call{}@{}", k, w), src: src.clone(), cfg: mk(w, false, true) });
